@@ -254,3 +254,81 @@ package headers
 //@   ensures [C02.target-defined] (result1 == nil) == daaDefined(b, height)
 //@   ensures [C02.target] result1 == nil ==> result0 != nil && bigv(result0) == daa(b, height)
 //@   modifies nothing
+
+// ---------------------------------------------------------------------------------------------------
+// Invalid headers (C17) and lookups (C09, C18)
+
+//@ func (Branches).Includes
+//@   ensures [C17] result == exists(i, 0, len(bs), bs[i] == branch)
+//@   modifies nothing
+//@   loop 1
+//@     invariant (-1 <= rangeindex && rangeindex < len(bs)) || (len(bs) == 0 && rangeindex == -1)
+//@     invariant forall(i, 0, rangeindex+1, bs[i] != branch)
+
+//@ func (*Branch).Trim
+//@   requires b != nil
+//@   let newLen = height - b.parentHeight - b.offset
+//@   ensures [C17.trim-refused] height <= old(b.parentHeight) || newLen >= old(len(b.headers)) || newLen <= 0 ==> result != nil && nochange()
+//@   ensures [C17.trimmed] height > old(b.parentHeight) && newLen < old(len(b.headers)) && newLen > 0 ==> result == nil && len(b.headers) == newLen && arr(b.headers) == old(arr(b.headers)) && off(b.headers) == old(off(b.headers))
+//@   ensures [C17.trim-map,C09.map] result == nil ==> forall(o, newLen, old(len(b.headers)), !has(b.heightsMap, old(b.headers[o]).Hash))
+//@   ensures [C17.trim-map-only-deletes,C09.map] forallv(k, bitcoin.Hash32, has(b.heightsMap, k) ==> old(has(b.heightsMap, k)) && b.heightsMap[k] == old(b.heightsMap[k]))
+//@   modifies b.headers, mapof(b.heightsMap)
+//@   loop 1
+//@     modifies mapof(b.heightsMap)
+//@     invariant (-1 <= rangeindex && rangeindex < len(b.headers) - offset) || (len(b.headers) - offset == 0 && rangeindex == -1)
+//@     invariant b.headers == atentry(b.headers) && b.heightsMap == atentry(b.heightsMap)
+//@     invariant forall(o, offset, offset+rangeindex+1, !has(b.heightsMap, b.headers[o].Hash))
+//@     invariant forallv(k, bitcoin.Hash32, has(b.heightsMap, k) ==> old(has(b.heightsMap, k)) && b.heightsMap[k] == old(b.heightsMap[k]))
+
+//@ func (*Branches).Trim
+//@   requires branch != nil && forall(i, 0, len(*bs), (*bs)[i] != nil)
+//@   requires forall(i, 0, len(*bs), forall(j, 0, len(*bs), i != j ==> (*bs)[i] != (*bs)[j]))
+//@   ensures [C17.branch-gone] result == nil && height == old(branch.parentHeight) + 1 ==> forall(i, 0, len(*bs), (*bs)[i] != branch)
+//@   ensures [C17.children-gone] result == nil ==> forall(i, 0, len(*bs), (*bs)[i] != nil && !((*bs)[i].parent == branch && (*bs)[i].parentHeight >= height))
+//@   ensures [C17.no-longer] result == nil ==> len(*bs) <= old(len(*bs))
+//@   ensures [C17.first-root-survives] result == nil && old(len(*bs)) > 0 && old((*bs)[0].parent) == nil && !(old((*bs)[0]) == branch && height == old(branch.parentHeight) + 1) ==> len(*bs) > 0 && (*bs)[0] == old((*bs)[0])
+//@   ensures [C17.trim-call] result == nil && height != old(branch.parentHeight) + 1 ==> len(branch.headers) == height - branch.parentHeight - branch.offset && len(branch.headers) > 0 && arr(branch.headers) == old(arr(branch.headers)) && off(branch.headers) == old(off(branch.headers))
+//@   ensures [C17.untouched] result == nil && height == old(branch.parentHeight) + 1 ==> branch.headers == old(branch.headers) && mapsame(branch.heightsMap)
+//@   ensures [C17.error-frame] result != nil ==> nochange()
+//@   modifies *bs, branch.headers, mapof(branch.heightsMap), allelems(*Branch)
+//@   loop 1
+//@     invariant (-1 <= rangeindex && rangeindex < len(*bs)) || (len(*bs) == 0 && rangeindex == -1)
+//@     invariant forall(i, 0, rangeindex+1, (*bs)[i] != branch)
+//@   loop 2
+//@     modifies allelems(*Branch)
+//@     invariant (-1 <= rangeindex && rangeindex < len(atentry(*bs))) || (len(atentry(*bs)) == 0 && rangeindex == -1)
+//@     invariant sameregion(newBranches) && sameregion(removedBranches) && len(newBranches) <= rangeindex + 1
+//@     invariant (cap(newBranches) == 0 || arr(newBranches) != arr(atentry(*bs))) && (cap(removedBranches) == 0 || arr(removedBranches) != arr(atentry(*bs))) && (arr(newBranches) != arr(removedBranches) || cap(newBranches) == 0 || cap(removedBranches) == 0)
+//@     invariant forall(i, 0, len(atentry(*bs)), atentry(*bs)[i] == atentry((*bs)[i]))
+//@     invariant forall(i, 0, len(newBranches), newBranches[i] != nil && !(newBranches[i].parent == branch && newBranches[i].parentHeight >= height) && (height == branch.parentHeight + 1 ==> newBranches[i] != branch))
+//@     invariant rangeindex >= 0 && atentry(*bs)[0].parent == nil ==> len(newBranches) > 0 && newBranches[0] == atentry(*bs)[0]
+//@     invariant forall(o, 0, len(removedBranches), removedBranches[o] != nil)
+
+//@ trusted func saveInvalidHashes
+//@   modifies nothing
+
+//@ trusted func (*Repository).header
+//@   modifies nothing
+
+//@ func (*Repository).MarkHeaderInvalid
+//@   requires repoInv(repo)
+//@   ensures [C17.listed] result == nil ==> markedInvalid(repo, hash)
+//@   ensures [C17.already-marked] old(markedInvalid(repo, hash)) ==> result == nil && nochange()
+//@   ensures [C17.unknown-only-listed] result == nil && !old(knownIn(repo.branches, hash)) ==> repo.branches == old(repo.branches) && repo.longest == old(repo.longest)
+//@   ensures [C17.tip-falls-back,C01.tip-maximal] result == nil && len(repo.branches) > 0 && repoTips(repo) ==> repoMax(repo) && exists(k, 0, len(repo.branches), repo.longest == repo.branches[k])
+//@   safety [C17]
+//@   modifies all
+//@   loop 1
+//@     invariant (-1 <= rangeindex && rangeindex < len(repo.invalidHashes)) || (len(repo.invalidHashes) == 0 && rangeindex == -1)
+//@     invariant forall(i, 0, rangeindex+1, repo.invalidHashes[i] != hash)
+
+//@ func (*Repository).MarkHeaderNotInvalid
+//@   requires repo != nil
+//@   ensures [C17.unmarked-first] old(markedInvalid(repo, hash)) && result == nil ==> len(repo.invalidHashes) == old(len(repo.invalidHashes)) - 1
+//@   ensures [C17.unmark-noop] !old(markedInvalid(repo, hash)) ==> result == nil && nochange()
+//@   ensures [C17.unmark-keeps-others] result == nil ==> forall(i, 0, len(repo.invalidHashes), exists(j, 0, old(len(repo.invalidHashes)), repo.invalidHashes[i] == old(repo.invalidHashes[j])))
+//@   ensures [C17.unmark-removes] result == nil && old(forall(i, 0, len(repo.invalidHashes), forall(j, 0, len(repo.invalidHashes), i != j ==> repo.invalidHashes[i] != repo.invalidHashes[j]))) ==> !markedInvalid(repo, hash)
+//@   modifies all
+//@   loop 1
+//@     invariant (-1 <= rangeindex && rangeindex < len(repo.invalidHashes)) || (len(repo.invalidHashes) == 0 && rangeindex == -1)
+//@     invariant !found && forall(i, 0, rangeindex+1, repo.invalidHashes[i] != hash)
